@@ -21,7 +21,8 @@ EXPLANATION = (
     "__param_names__ (equal names, or the documented nesting literal / duplicated symmetric value); (5) sibling agreement - "
     "definitions that exist in a mirrored pair (x1 = f(s), x2 = f(1-s)) are images of each other, and a model and its "
     "*_sel / *_mscore twins define like-named intermediate sizes by the same expressions. Finiteness and numerical reduction "
-    "at the nesting point are not decided.")
+    "at the nesting point are not decided."
+    " Shared necessary conditions: R-CTYPE (no quotient of two integer-typed operands in any C coefficient function: C truncates 1/2 to 0, so the compiled time-dependent path and the constant-parameter Python path of nested models would disagree) and C06's deposition rule for PhiManip._admixture_intermediates (admixture models reduce to their split siblings only if the helper keeps the source density).")
 TECHNIQUE = "name/role/index correspondence over all model call sites + phi-dimension typestate + sibling (mirror/twin) comparison by normal forms"
 DECLINED = ["finiteness / non-negativity of model output", "numerical equality at the nesting point", "equivariance up to splitting error"]
 
